@@ -569,11 +569,87 @@ def corpus():
     return out
 
 
+def dataset_level(ctx, n):
+    """through an opened v4 data set: with only data_lost selected, d.flags is True exactly on the elements covered by
+    a missing chunk of any array (and raw_flags carry bit 3 exactly there); with everything but data_lost selected
+    the flags are the other stored bits; vis is zero exactly on the elements of its own missing chunks"""
+    import random
+    import shutil
+    import tempfile
+    from harness import v4synth
+    bad = []
+    for k in range(n):
+        seed = ctx.rng.randrange(2 ** 31)
+        rng = random.Random(seed)
+        T, F = rng.randint(3, 6), rng.randint(2, 5)
+        ct = v4synth.random_chunks(rng, T)
+        cf = v4synth.random_chunks(rng, F)
+        case = dict(kind='dataset', seed=seed, T=T, F=F)
+        tmp = tempfile.mkdtemp(prefix='c06d_')
+        what = None
+        try:
+            B = len(v4synth.default_corrprods(1, random.Random(0), False, 'hv'))
+            chunks = {a: ((tuple(ct), tuple(cf)) + (((B,),) if a != 'weights_channel' else ())) for a in
+                      ('correlator_data', 'flags', 'weights', 'weights_channel')}
+            grid = [(i, j) for i in range(len(ct)) for j in range(len(cf))]
+            missing = {a: [g + ((0,) if a != 'weights_channel' else ()) for g in grid if rng.random() < 0.3]
+                       for a in chunks}
+            with dask.config.set(scheduler='synchronous'):
+                syn = v4synth.make_v4(rng, T=T, F=F, n_ants=1, shuffle_bls=False, chunks=chunks, store_dir=tmp,
+                                      missing=missing, seed=seed % 1000)
+                d = syn.dataset
+                ts, fs = np.cumsum([0] + list(ct)), np.cumsum([0] + list(cf))
+                lost = np.zeros((T, F), dtype=bool)
+                lost_vis = np.zeros((T, F), dtype=bool)
+                for a, gs in missing.items():
+                    for g in gs:
+                        lost[ts[g[0]]:ts[g[0] + 1], fs[g[1]]:fs[g[1] + 1]] = True
+                        if a == 'correlator_data':
+                            lost_vis[ts[g[0]]:ts[g[0] + 1], fs[g[1]]:fs[g[1] + 1]] = True
+                order = [syn.corrprods.index(tuple(cp)) for cp in d.corr_products]
+                stored_flags = syn.stored['flags'][:, :, order]
+                d.select(flags='data_lost')
+                got = np.asarray(d.flags[:])
+                if not np.array_equal(got, np.broadcast_to(lost[:, :, None], got.shape)):
+                    what = (f"select(flags='data_lost'): {int((got & ~lost[:, :, None]).sum())} element(s) outside every "
+                            f"missing chunk are flagged and {int((~got & lost[:, :, None]).sum())} lost element(s) are not")
+                if what is None:
+                    d.select(flags='static,cam,ingest_rfi,predicted_rfi,cal_rfi')
+                    got = np.asarray(d.flags[:])
+                    want = ((stored_flags & np.uint8(0x76)) != 0) & ~lost_flags_mask(missing, ts, fs, T, F)[:, :, None]
+                    if not np.array_equal(got, want):
+                        what = 'with every flag but data_lost selected the flags are not the other stored bits'
+                if what is None:
+                    d.select(flags='all')
+                    vis = np.asarray(d.vis[:])
+                    stored_vis = syn.stored['correlator_data'][:, :, order]
+                    if not np.array_equal(vis, np.where(lost_vis[:, :, None], 0, stored_vis)):
+                        what = 'visibilities are not zero exactly on the elements of their own missing chunks'
+        except Exception as e:   # noqa: BLE001
+            what = f'opening / reading a v4 data set with missing chunks raised {type(e).__name__}: {str(e)[:120]}'
+        finally:
+            shutil.rmtree(tmp, ignore_errors=True)
+        ctx.tag('dataset-level-flag-selection')
+        ctx.count(('dataset', seed), True, sample={'dataset': [T, F], 'missing': {a: len(g) for a, g in missing.items()}})
+        if what:
+            bad.append((case, what))
+    return bad
+
+
+def lost_flags_mask(missing, ts, fs, T, F):
+    """elements of a missing *flags* chunk: their stored bits are gone (read as zero)"""
+    m = np.zeros((T, F), dtype=bool)
+    for g in missing.get('flags', []):
+        m[ts[g[0]]:ts[g[0] + 1], fs[g[1]]:fs[g[1] + 1]] = True
+    return m
+
+
 def run(ctx):
     ctx.matchers.update(MATCHERS)
     build = common.build_and_audit('C06', ctx.tier)
     cases = corpus() + [gen_case(ctx.rng) for _ in range(ctx.q(250, 8000))]
     bad = evaluate(ctx, cases)
+    bad += dataset_level(ctx, ctx.q(8, 150))
     for c, v in bad:
         ctx.violation(c, v)
     return common.finish(ctx, build, RULE, CHECKER, TRUSTED, shrink=lambda c, w: shrink(ctx, c, w))
